@@ -2,7 +2,7 @@
 //
 // Cases:
 //
-//	{"op":"bind","native":[{schema,type}..],"types":[{id,iface,nilable,err}..]}
+//	{"op":"bind","native":[{schema,type}..],"types":[{id,iface,nilable,err}..],"errtokens":[class..]}
 //	      the abstraction tables of FuncsMC, checked here against the real schemas
 //	      (ReflectedType) and package reflect; a difference is bind_error (infrastructure)
 //	{"op":"new","dyn":b,"params":[type..],"results":[type..],"inputs":[schema..],"natives":[type..],
@@ -87,7 +87,8 @@ type caseT struct {
 		Schema string `json:"schema"`
 		Type   string `json:"type"`
 	} `json:"native"`
-	Types []attrT `json:"types"`
+	Types     []attrT  `json:"types"`
+	Errtokens []string `json:"errtokens"`
 	// rand
 	Seed  int64 `json:"seed"`
 	Count int   `json:"count"`
@@ -265,6 +266,58 @@ func candidates(tok int) []any {
 	return []any{"bb", errors.New("e2"), fakei.New("f2"), &PtrErr{Msg: "cc"}, strT("s2")}
 }
 
+// NilSafeErr is an error implementation whose nil pointer is usable (the typed-nil error token).
+type NilSafeErr struct{ Msg string }
+
+func (e *NilSafeErr) Error() string {
+	if e == nil {
+		return "typed nil error"
+	}
+	return e.Msg
+}
+
+// errTokClass: the classes of the error tokens 1..6 (must equal ErrTokClass of Funcs.tla).
+var errTokClass = []string{"plain", "plain", "wraps_call_shape_error", "call_error_not_reported", "call_error_reported", "typed_nil"}
+
+// tokDom is the number of the highest token of type t.
+func tokDom(t reflect.Type) int {
+	if t == errorType {
+		return len(errTokClass)
+	}
+	return 2
+}
+
+// shapeError produces a *FunctionCallError that is not function-reported the way a handler gets
+// one in real life: by calling another function with a wrong argument count.
+func shapeError() error {
+	inner, err := schema.NewCallableFunction("inner", []schema.Type{}, nil, false, nil, func() {})
+	if err == nil {
+		if _, cerr := inner.Call([]any{int64(1)}); cerr != nil {
+			var fce *schema.FunctionCallError
+			if errors.As(cerr, &fce) && !fce.IsFunctionReportedError {
+				return cerr
+			}
+		}
+	}
+	return schema.NewFunctionCallError(errors.New("inner call: incorrect number of args"), false)
+}
+
+// errorToken builds the value of type error for tokens 3..6.
+func errorToken(tok int) error {
+	switch errTokClass[tok-1] {
+	case "wraps_call_shape_error":
+		return fmt.Errorf("handler could not call its helper: %w", shapeError())
+	case "call_error_not_reported":
+		return shapeError()
+	case "call_error_reported":
+		return schema.NewFunctionCallError(errors.New("helper failed"), true)
+	case "typed_nil":
+		var p *NilSafeErr
+		return p
+	}
+	panic("no error token " + fmt.Sprint(tok))
+}
+
 // valueOf returns the value of type t that token tok stands for: 0 = zero value, 1 and 2 =
 // two non-zero (for nilable types: non-nil) values.  Values are cached, so pointers are stable.
 func valueOf(t reflect.Type, tok int) reflect.Value {
@@ -282,6 +335,10 @@ func buildValue(t reflect.Type, tok int) reflect.Value {
 		return reflect.Zero(t)
 	}
 	v := reflect.New(t).Elem()
+	if t == errorType && tok > 2 {
+		v.Set(reflect.ValueOf(errorToken(tok)))
+		return v
+	}
 	switch t.Kind() {
 	case reflect.Int, reflect.Int8, reflect.Int16, reflect.Int32, reflect.Int64:
 		v.SetInt(int64(3 + 4*tok))
@@ -526,6 +583,7 @@ type callObs struct {
 	IsNil    bool   `json:"isnil"`
 	Toks     []int  `json:"toks"`
 	Reported bool   `json:"reported"`
+	SrcToks  []int  `json:"srctoks"` // tokens of the error slot's type whose value is the reported source
 	FCE      bool   `json:"fce"`     // the error is a *FunctionCallError
 	Invoked  int    `json:"invoked"` // how often the handler ran
 	Msg      string `json:"msg,omitempty"`
@@ -563,7 +621,7 @@ func (f *fnT) call(fn schema.CallableFunction, c callT) callObs {
 	var res any
 	var err error
 	pi := sup.Guard(func() { res, err = fn.Call(args) })
-	o := callObs{Toks: []int{}, Invoked: f.st.invoked}
+	o := callObs{Toks: []int{}, SrcToks: []int{}, Invoked: f.st.invoked}
 	if f.st.invoked > 0 && len(f.st.got) == len(args) {
 		o.ArgsOK = true
 		for i := range args {
@@ -582,14 +640,28 @@ func (f *fnT) call(fn schema.CallableFunction, c callT) callObs {
 		if errors.As(err, &fce) && fce != nil {
 			o.FCE = true
 			o.Reported = fce.IsFunctionReportedError
+			// which value of the error slot's type is the reported source?
+			if n := len(f.results); n > 0 {
+				for tok := 1; tok <= tokDom(f.results[n-1]); tok++ {
+					if he, ok := valueOf(f.results[n-1], tok).Interface().(error); ok && isSource(err, fce, he) {
+						o.SrcToks = append(o.SrcToks, tok)
+					}
+				}
+			}
 			// direct: a function-reported error is the error the handler returned
 			if o.Reported {
 				n := len(f.st.returned)
 				if n == 0 {
 					o.Direct = "function-reported error although the handler returned nothing"
-				} else if he, ok := f.st.returned[n-1].Interface().(error); !ok || !(fce.SourceError == he || errors.Is(fce.SourceError, he)) {
+				} else if he, ok := f.st.returned[n-1].Interface().(error); !ok || !isSource(err, fce, he) {
 					o.Direct = "function-reported error is not the error the handler returned"
 				}
+			}
+		}
+		// direct: an error the handler returned is reported as the function's - whatever it is or wraps
+		if n := len(f.st.returned); n > 0 && f.st.invoked == 1 && len(f.results) > 0 && f.results[n-1] == errorType && f.exact() {
+			if he, ok := f.st.returned[n-1].Interface().(error); ok && he != nil && !isTypedNil(he) && !o.Reported {
+				o.Direct = "the handler returned an error and Call does not report it as function-reported"
 			}
 		}
 		return o
@@ -597,7 +669,7 @@ func (f *fnT) call(fn schema.CallableFunction, c callT) callObs {
 	o.Kind = "ok"
 	o.IsNil = res == nil
 	if len(f.results) > 0 {
-		for tok := 0; tok <= 2; tok++ {
+		for tok := 0; tok <= tokDom(f.results[0]); tok++ {
 			if reflect.DeepEqual(res, valueOf(f.results[0], tok).Interface()) {
 				o.Toks = append(o.Toks, tok)
 			}
@@ -618,6 +690,29 @@ func (f *fnT) call(fn schema.CallableFunction, c callT) callObs {
 	return o
 }
 
+// isSource: he (the handler's error value) is what the returned error reports - SourceError is he
+// or wraps it, or the returned error is he itself.
+func isSource(err error, fce *schema.FunctionCallError, he error) bool {
+	if he == nil {
+		return false
+	}
+	return (fce.SourceError != nil && errors.Is(fce.SourceError, he)) || errors.Is(err, he)
+}
+
+func isTypedNil(e error) bool {
+	v := reflect.ValueOf(e)
+	return v.Kind() == reflect.Ptr && v.IsNil()
+}
+
+func hasTok(ts []int, t int) bool {
+	for _, x := range ts {
+		if x == t {
+			return true
+		}
+	}
+	return false
+}
+
 // meets mirrors the operator Meets of Funcs.tla.
 func meets(e expT, o callObs) bool {
 	switch e.Kind {
@@ -634,7 +729,7 @@ func meets(e expT, o callObs) bool {
 	case "void":
 		return o.Kind == "ok" && o.IsNil
 	case "error":
-		return o.Kind == "error" && o.Reported == e.Reported
+		return o.Kind == "error" && o.Reported == e.Reported && (!e.Reported || hasTok(o.SrcToks, e.Tok))
 	case "open_shape":
 		return o.Kind == "panic" || (o.Kind == "error" && !o.Reported)
 	case "open_panic":
@@ -656,6 +751,15 @@ func obsClass(o callObs) string {
 		return "returns"
 	}
 	return o.Kind
+}
+
+// errClassOf names the class of the handler's error value (part of the signature: which kind of
+// handler error is mishandled).
+func errClassOf(f *fnT, tok int) string {
+	if n := len(f.results); n > 0 && f.results[n-1] == errorType && tok >= 1 && tok <= len(errTokClass) {
+		return errTokClass[tok-1]
+	}
+	return "other_type"
 }
 
 func expClass(e expT) string {
@@ -724,6 +828,31 @@ func runBind(c caseT, r *resT) {
 		}
 		r.Evals++
 	}
+	if !reflect.DeepEqual(c.Errtokens, errTokClass) {
+		fail("error tokens: specification %v, harness %v", c.Errtokens, errTokClass)
+	}
+	for tok := 1; tok <= len(errTokClass); tok++ {
+		e, _ := valueOf(errorType, tok).Interface().(error)
+		var fce *schema.FunctionCallError
+		isFCE := errors.As(e, &fce)
+		_, direct := e.(*schema.FunctionCallError)
+		ok := e != nil
+		switch errTokClass[tok-1] {
+		case "plain":
+			ok = ok && !isFCE && !isTypedNil(e)
+		case "wraps_call_shape_error":
+			ok = ok && isFCE && !direct && !fce.IsFunctionReportedError
+		case "call_error_not_reported":
+			ok = ok && direct && !fce.IsFunctionReportedError
+		case "call_error_reported":
+			ok = ok && direct && fce.IsFunctionReportedError
+		case "typed_nil":
+			ok = ok && isTypedNil(e)
+		}
+		if !ok {
+			fail("error token %d is not of class %s: %#v", tok, errTokClass[tok-1], e)
+		}
+	}
 	seen := map[string]bool{}
 	for _, a := range c.Types {
 		t, ok := universe[a.ID]
@@ -743,7 +872,7 @@ func runBind(c caseT, r *resT) {
 			fail("attributes of %s: specification %+v, reflect %+v", a.ID, a, got)
 		}
 		// the value table must respect the attributes
-		for tok := 0; tok <= 2; tok++ {
+		for tok := 0; tok <= tokDom(t); tok++ {
 			v := valueOf(t, tok)
 			if v.Type() != t {
 				fail("value %d of %s has type %v", tok, a.ID, v.Type())
@@ -897,6 +1026,12 @@ func runCall(c caseT, r *resT) {
 	d["call"] = c.Call
 	d["observed"] = o
 	sig := map[string]any{"op": "call", "cell": c.Exp.Verdict, "expect": expClass(c.Exp), "observed": obsClass(o)}
+	if c.Exp.Kind == "error" && c.Exp.Reported && o.Kind == "error" && o.Reported && !hasTok(o.SrcToks, c.Exp.Tok) {
+		sig["observed"] = "error/reported/other_source"
+	}
+	if c.Exp.Kind == "error" && c.Exp.Reported {
+		sig["handler_error"] = errClassOf(f, c.Exp.Tok)
+	}
 	if o.Kind == "panic" {
 		sig["frame"] = o.Frame
 	}
@@ -1141,8 +1276,8 @@ func genCall(rng *rand.Rand, f *fnT) callT {
 			c.Bad = cand[rng.Intn(len(cand))]
 		}
 	}
-	for j := range f.results {
-		tok := rng.Intn(3)
+	for j, rt := range f.results {
+		tok := rng.Intn(tokDom(rt) + 1)
 		if j == len(f.results)-1 && j > 0 && rng.Intn(2) == 0 {
 			tok = 0
 		}
@@ -1204,7 +1339,7 @@ func runRand(c caseT, r *resT) {
 			cline := f.traceFn(r)
 			cline["ev"] = "call"
 			cline["call"] = cl
-			cline["obs"] = map[string]any{"kind": o.Kind, "isnil": o.IsNil, "toks": o.Toks, "reported": o.Reported,
+			cline["obs"] = map[string]any{"kind": o.Kind, "isnil": o.IsNil, "toks": o.Toks, "reported": o.Reported, "srctoks": o.SrcToks,
 				"invoked": o.Invoked, "msg": o.Msg, "frame": o.Frame}
 			cline["schemas"] = strings.Join(descr, " ")
 			r.Trace = append(r.Trace, cline)
